@@ -37,7 +37,7 @@ func genC17(cfg Config, emit Emit) error {
 		g := []int{2, 3, 4, 8}[i%4]
 		ops := []int{5, 20, 60, 200}[(i/4)%4]
 		procs := []int{1, 2, 4, 16}[(i/16)%4]
-		via := []string{"store", "attach"}[i%2]
+		via := []string{"store", "attach", "store", "attachseq"}[i%4]
 		emit("bsconc", []string{itoa(cfg.Rng.Intn(1 << 30)), itoa(g), itoa(ops), itoa(procs), via}, fmt.Sprintf("g%d/ops%d/procs%d/%s", g, ops, procs, via), true)
 	}
 	return nil
@@ -141,7 +141,7 @@ func execBsConc(a []string) (res Result) {
 	var get func(l ipld.Link) (ipld.Block, bool, error)
 	var iterate func() []int
 	nOwn := 0
-	if via == "attach" {
+	if via == "attach" || via == "attachseq" {
 		pools()
 		d, err := delegation.Delegate(edPool[0], edPool[1], []ucan.Capability[NbMap]{ucan.NewCapability("x/y", edPool[0].DID().String(), NbMap{F: map[string]any{}})})
 		if err != nil {
@@ -152,10 +152,16 @@ func execBsConc(a []string) (res Result) {
 		}
 		put = d.Attach
 		get = nil
+		// "attachseq": every goroutine ranges over ONE sequence value obtained before they start
+		shared := d.Blocks()
 		iterate = func() []int {
 			var out []int
 			k := 0
-			for b, err := range d.Blocks() {
+			seq := d.Blocks()
+			if via == "attachseq" {
+				seq = shared
+			}
+			for b, err := range seq {
 				if err != nil {
 					out = append(out, -1)
 					continue
